@@ -822,6 +822,35 @@ def normalise(t):
         if len(items) == 1:
             return items[0]
         return ("seq",) + tuple(items)
+    if h == "if" and len(t) == 4 and _is(t[1], "iflet") and len(t[1]) == 3 and _is(t[1][2], "call") and len(t[1][2]) == 4 and t[1][2][1] == "Chars.next_if" \
+            and _is(t[1][1], "pvar") and t[1][1][1] == "Option::Some" and len(t[1][1]) == 3 and _is(t[1][1][2], "bind"):
+        # if let Some(c) = it.next_if(pred) {A(c)} else {B}
+        #   ==  if let Some(p) = it.peek() { if pred(p) {A(it.next()?)} else {B} } else {B}        (c used once in A)
+        b = t[1][1][2][1]
+        it, pred = t[1][2][2], t[1][2][3]
+        uses = sum(1 for x in _subterms(t[2]) if x == ("var", b))
+        if uses == 1 and (_is(pred, "lambda") and len(pred[1]) == 1 and _is(pred[1][0], "bind") or _is(pred, "fnref")):
+            cond = ("icall", pred, ("var", b)) if _is(pred, "fnref") else None
+            if cond is None:
+                pv = pred[1][0][1]
+
+                def sp(z):
+                    if isinstance(z, tuple):
+                        if z == ("var", pv):
+                            return ("var", b)
+                        return tuple(sp(w) for w in z)
+                    return z
+                cond = sp(pred[2])
+            else:
+                cond = ("call", pred[1], ("var", b))
+
+            def sa(z):
+                if isinstance(z, tuple):
+                    if z == ("var", b):
+                        return ("try", ("call", "Chars.next", it))
+                    return tuple(sa(w) for w in z)
+                return z
+            return normalise(("if", ("iflet", t[1][1], ("call", "Chars.peek", it)), ("if", cond, sa(t[2]), t[3]), t[3]))
     if h == "if" and len(t) == 4 and t[3] == ("lit", "false", "bool"):
         return normalise(("op", "and", "bool", t[1], t[2]))        # if a {b} else {false}  ==  a && b
     if h == "if" and len(t) == 4 and t[2] == ("lit", "true", "bool"):
